@@ -62,6 +62,8 @@ J gen_sessions(uint64_t seed, const J &ov);
 World *build_sessions(const J &plan);
 J gen_forward(uint64_t seed, const J &ov);
 World *build_forward(const J &plan);
+J gen_probe(uint64_t seed, const J &ov);
+World *build_probe(const J &plan);
 
 static J gen_plan_inner(const std::string &scen, uint64_t seed, const J &ov);
 J gen_plan(const std::string &scen, uint64_t seed, const J &ov)
@@ -77,6 +79,7 @@ static J gen_plan_inner(const std::string &scen, uint64_t seed, const J &ov)
 	if (scen == "hostile_cli") return gen_hostile_cli(seed, ov);
 	if (scen == "sessions") return gen_sessions(seed, ov);
 	if (scen == "forward") return gen_forward(seed, ov);
+	if (scen == "probe") return gen_probe(seed, ov);
 	J p = J::obj(); p.set("scenario", scen); p.set("seed", (long long)seed); p.set("error", "unknown scenario");
 	return p;
 }
@@ -89,6 +92,7 @@ static World *build_world(const J &plan)
 	if (scen == "hostile_cli") return build_hostile_cli(plan);
 	if (scen == "sessions") return build_sessions(plan);
 	if (scen == "forward") return build_forward(plan);
+	if (scen == "probe") return build_probe(plan);
 	return nullptr;
 }
 
